@@ -6,20 +6,27 @@
 use vstd::prelude::*;
 use std::collections::{HashMap, HashSet};
 use std::ffi::OsString;
-use std::path::PathBuf;
+use std::ops::{Range, RangeInclusive};
+use std::path::{Path, PathBuf};
+use std::sync::Arc;
 
 //@include prelude/mainw_anyhow.rs
-//@include prelude/blocks_ax.rs
+//@include prelude/mainw_ax.rs
 //@include prelude/tstr_mod.rs
 //@include prelude/mainw_globset.rs
+//@include prelude/mainw_ignore.rs
+//@include prelude/orch_ext.rs
+use ignore::Walk;
 use anyhow::Context;
 use globset::*;
 
 verus! {
 
-broadcast use {vstd::std_specs::hash::group_hash_axioms, blocks_ax::group_blocks_ax, tstr::group_tstr, globset::group_globset};
+broadcast use {vstd::std_specs::hash::group_hash_axioms, mainw_ax::group_mainw_ax, tstr::group_tstr, globset::group_globset};
 
+//@include prelude/orch_model.rs
 //@include prelude/mainw_args.rs
+//@include prelude/mainw_paths.rs
 
 //@item file=src/flags.rs kind=enum name=SubCommand
 //@item file=src/flags.rs kind=struct name=Args
@@ -120,7 +127,135 @@ verif_osstring_from($a)
 //@chain rule=E3 find=<<.iter().map(AsRef::as_ref).collect()>> to=verif_iter_as_ref_collect_set recvprefix=<<&>>
 //@end
 
+// A4 (C15): the positional globs (incl. those of `list`) as one glob set; an invalid pattern is an error
+#[verifier::loop_isolation(false)]
+//@unit id=A4 file=src/flags.rs fn=<<impl Args::globs>> ret=r
+//@contract
+        ensures
+            r matches Ok(s) ==> glob_set_of(positional_patterns(*self)) == Some(s), // [A4.post.set_of_positional_and_list_globs]
+            r is Err ==> glob_set_of(positional_patterns(*self)) is None, // [A4.post.err_only_if_invalid_pattern]
+//@chain rule=E5 find=<<.extend(>> to=verif_vec_extend recvprefix=<<&mut >> optional=1
+//@macro rule=E1 name=format to=<<anyhow::verif_msg()>> optional=1
+//@edit rule=E15 find=<<for $a in &$b>>
+        let ghost pats = str_views($b@);
+        proof {
+            // the list iterated is the positional globs followed by the globs of `list`
+            assert(pats =~= positional_patterns(*self)); // [A4.step.patterns_are_positional_then_list]
+        }
+        for $a in it: &$b
+            invariant
+                compile_all(pats, it.index@ as int) == Some(builder.pats()), // [A4.inv.every_pattern_so_far_added]
+                pats == str_views($b@),
+                it.seq().len() == $b@.len(),
+                forall|i: int| 0 <= i < it.seq().len() ==> *#[trigger] it.seq()[i] == $b@[i],
+//@edit rule=ghost before=<<builder.build()>>
+        proof {
+            assert(compile_all(pats, pats.len() as int) == Some(builder.pats()));
+        }
+//@edit rule=ghost after=<<*#[trigger] it.seq()[i] == $b@[i], {>>
+            proof {
+                // an invalid pattern makes the whole list invalid
+                if glob_of(pats[it.index@ as int]) is None {
+                    lemma_compile_all_none(pats, it.index@ + 1, pats.len() as int);
+                }
+            }
+//@end
+
+// A5 (C15): the --ignore globs as one glob set; an invalid pattern is an error
+#[verifier::loop_isolation(false)]
+//@unit id=A5 file=src/flags.rs fn=<<impl Args::ignored_globs>> ret=r
+//@contract
+        ensures
+            r matches Ok(s) ==> glob_set_of(ignore_patterns(*self)) == Some(s), // [A5.post.set_of_ignore_globs]
+            r is Err ==> glob_set_of(ignore_patterns(*self)) is None, // [A5.post.err_only_if_invalid_pattern]
+//@macro rule=E1 name=format to=<<anyhow::verif_msg()>> optional=1
+//@edit rule=E15 find=<<for $a in &self.$b>>
+        let ghost pats = str_views(self.$b@);
+        proof {
+            assert(pats =~= ignore_patterns(*self)); // [A5.step.patterns_are_the_ignore_list]
+        }
+        for $a in it: &self.$b
+            invariant
+                compile_all(pats, it.index@ as int) == Some(builder.pats()), // [A5.inv.every_pattern_so_far_added]
+                pats == str_views(self.$b@),
+                it.seq().len() == self.$b@.len(),
+                forall|i: int| 0 <= i < it.seq().len() ==> *#[trigger] it.seq()[i] == self.$b@[i],
+//@edit rule=ghost after=<<*#[trigger] it.seq()[i] == self.$b@[i], {>>
+            proof {
+                // an invalid pattern makes the whole list invalid
+                if glob_of(pats[it.index@ as int]) is None {
+                    lemma_compile_all_none(pats, it.index@ + 1, pats.len() as int);
+                }
+            }
+//@edit rule=ghost before=<<builder.build()>>
+        proof {
+            assert(compile_all(pats, pats.len() as int) == Some(builder.pats()));
+        }
+//@end
+
 } // impl Args
+
+// ---------------------------------------------------------------------------------------------
+// M2: `repository_root_path` (src/main.rs). C15: "under the repository root ... wherever blockwatch is
+// started inside the repository"; C20: "paths relative to repository root".
+
+/// a repository root: a directory that has a `.git` or a `.hg` DIRECTORY in it
+pub open spec fn is_repo_root(p: PathBuf) -> bool {
+    is_dir_spec(path_join_spec(p, ".git"@)) || is_dir_spec(path_join_spec(p, ".hg"@))
+}
+
+/// `root` is the NEAREST ancestor of `start` (the path itself included) that is a repository root
+pub open spec fn nearest_repo_root(start: PathBuf, root: PathBuf) -> bool {
+    exists|i: int| 0 <= i < ancestors_spec(start).len() && #[trigger] ancestors_spec(start)[i] == root
+        && is_repo_root(root) && (forall|j: int| 0 <= j < i ==> !is_repo_root(#[trigger] ancestors_spec(start)[j]))
+}
+
+/// no ancestor of `start` (the path itself included) is a repository root
+pub open spec fn no_repo_root(start: PathBuf) -> bool {
+    forall|i: int| 0 <= i < ancestors_spec(start).len() ==> !is_repo_root(#[trigger] ancestors_spec(start)[i])
+}
+
+/// `repository_root_path` as a function (`None` = `Err`)
+pub open spec fn repo_root_spec(start: PathBuf) -> Option<PathBuf> {
+    if no_repo_root(start) { None } else { Some(choose|root: PathBuf| nearest_repo_root(start, root)) }
+}
+
+/// the nearest root is unique, so `repo_root_spec` is THE root
+pub proof fn lemma_nearest_root_unique(start: PathBuf, r1: PathBuf, r2: PathBuf)
+    requires nearest_repo_root(start, r1), nearest_repo_root(start, r2),
+    ensures r1 == r2,
+{
+    let anc = ancestors_spec(start);
+    let i1 = choose|i: int| 0 <= i < anc.len() && #[trigger] anc[i] == r1 && is_repo_root(r1) && (forall|j: int| 0 <= j < i ==> !is_repo_root(#[trigger] anc[j]));
+    let i2 = choose|i: int| 0 <= i < anc.len() && #[trigger] anc[i] == r2 && is_repo_root(r2) && (forall|j: int| 0 <= j < i ==> !is_repo_root(#[trigger] anc[j]));
+    if i1 < i2 { assert(!is_repo_root(anc[i1])); }
+    if i2 < i1 { assert(!is_repo_root(anc[i2])); }
+}
+
+/// started in the root itself: the root is the start path (`ancestors` begins with the path itself)
+pub proof fn lemma_start_path_counts(start: PathBuf)
+    requires is_repo_root(start),
+    ensures nearest_repo_root(start, start), // [M2.lemma.start_path_itself_counts]
+{
+    axiom_ancestors_start_with_self(start);
+    assert(ancestors_spec(start)[0] == start);
+}
+
+//@unit id=M2 file=src/main.rs fn=repository_root_path ret=r
+//@contract
+    ensures
+        r matches Ok(root) ==> nearest_repo_root(current_path, root), // [M2.post.nearest_ancestor_with_git_or_hg_dir]
+        r is Err ==> no_repo_root(current_path), // [M2.post.err_only_without_root]
+        r matches Ok(root) ==> repo_root_spec(current_path) == Some(root), // [M2.post.is_spec]
+        r is Err ==> repo_root_spec(current_path) is None,
+//@macro rule=E1 name=anyhow to=<<anyhow::verif_err()>> optional=1
+//@closure rule=E12 find=<<|path|>> nth=0 of=2 params=<<|path: &&Path|>> ret=<<hit: bool>>
+            ensures hit == is_repo_root(path_owned(*path)), // [M2.closure.git_or_hg_directory]
+//@closure rule=E12 find=<<|path|>> params=<<|path: &Path|>> ret=<<owned: PathBuf>>
+            ensures owned == path_owned(path), // [M2.closure.owned_copy]
+//@chain rule=E13 find=<<.join(>> to=verif_path_join_str argkind=str count=all optional=1
+//@chain rule=E3 find=<<.ancestors().find(>> to=verif_ancestors_find recvprefix=<<&>> extra=<<Ghost(|p: PathBuf| is_repo_root(p))>>
+//@end
 
 } // verus!
 fn main() {}
